@@ -64,6 +64,11 @@ def generate(rng, tier):
     for alloc in ["pool", "track", "gpool"] + ([] if quick else ["simple", "guard"]):
         cut = rng.randrange(len(bigdoc) // 2, len(bigdoc))
         cases.append({"lines": [f"parse-seq {alloc} {G.hx(bigdoc)} {G.hx(bigdoc[:cut])} {G.hx(b'[1]')}"], "cls": "big-doc/" + alloc, "nontrivial": True})
+    # pool over a user-supplied buffer of every size 96..700 (every misalignment; the first chunk is filled to the brim for some sizes)
+    udocs = [b"[" + b",".join(b"%d" % i for i in range(12)) + b"]", b'{"a":1,"b":[true,null,"x"],"c":{"d":2.5}}', b"[[[[1,2],[3,", b'[1,2,3,nul]']
+    for n in (range(96, 701) if not quick else range(96, 701, 1)):
+        d = udocs[n % len(udocs)]
+        cases.append({"lines": [f"parse-seq upool-{n} {G.hx(d)} {G.hx(udocs[(n // 4) % len(udocs)])}"], "cls": "user-buffer-pool", "nontrivial": True})
     for t, cls in texts:
         alloc = rng.choice(["pool", "simple", "track", "track", "guard", "gpool"] if len(t) < 400 else ["pool", "simple", "track"])
         cases.append({"lines": [f"parse {alloc} {G.hx(t)}"], "cls": cls + "/" + alloc, "nontrivial": len(t) > 2})
